@@ -153,12 +153,34 @@ def coq_make(target=None, timeout=1500, jobs=16):
     return rc == 0, out + err
 
 
-def forbidden_scan():
+def dep_closure(prop_file):
+    """the .v files of this project that prop_file (transitively) requires, found by reading Require lines"""
+    seen, todo = set(), [prop_file]
+    while todo:
+        f = todo.pop()
+        if f in seen or not os.path.exists(os.path.join(COQ, f)):
+            continue
+        seen.add(f)
+        txt = re.sub(r"\(\*.*?\*\)", "", open(os.path.join(COQ, f)).read(), flags=re.S)
+        for m in re.finditer(r"(?:From\s+C2PA\s+)?Require\s+(?:Import\s+|Export\s+)?(.*?)\.(?:\s|$)", txt, re.S):
+            for name in m.group(1).split():
+                name = name.strip()
+                if name.startswith("C2PA."):
+                    name = name[5:]
+                cand = name.replace(".", "/") + ".v"
+                if os.path.exists(os.path.join(COQ, cand)):
+                    todo.append(cand)
+    return sorted(seen)
+
+
+def forbidden_scan(only=None):
     bad = []
     for root, _, files in os.walk(COQ):
         for fn in files:
             if fn.endswith(".v"):
                 p = os.path.join(root, fn)
+                if only is not None and os.path.relpath(p, COQ) not in only:
+                    continue
                 txt = open(p).read()
                 txt = re.sub(r"\(\*.*?\*\)", "", txt, flags=re.S)
                 for m in FORBIDDEN.finditer(txt):
@@ -203,10 +225,13 @@ def coq_audit(prop, prop_file):
     target = prop_file[:-2] + ".vo"
     ok, mlog = coq_make(target)
     res = {"obligations": len(thms), "discharged": 0, "failed": [], "axioms": {}, "log": mlog[-4000:], "theorems": thms}
-    bad = forbidden_scan()
+    closure = dep_closure(prop_file)
+    res["files"] = closure
+    bad = forbidden_scan(only=set(closure))
     if bad:
         res["failed"] = [f"forbidden construct: {b}" for b in bad]
         return res
+    res["tree_hygiene"] = forbidden_scan()      # whole development (reported, decided by tools/hygiene.sh and setup)
     if not ok:
         m = re.search(r'File "([^"]+)", line (\d+).*?\n(Error:.*?)(?:\n\n|\Z)', mlog, re.S)
         res["failed"] = [f"build of {target} failed: " + (f"{m.group(1)}:{m.group(2)} {m.group(3)[:300]}" if m else mlog[-500:])]
